@@ -1,3 +1,4 @@
+import PsModel.Gen.TaskTbl
 /-!
 # C13 model – `task.unique` bookkeeping of `function.py` as a transition system
 
@@ -12,8 +13,13 @@ the await-free segments of `function.py`:
                       the caller claims if it is one of ours.
 * `reap`            – one iteration of `task_reaper`: `cmd = await q.get(); cmd[1].cancel(); await cmd[1]`
                       (the reaper then waits for that task to end before it takes the next command)
-* `exit t`          – the `finally` of `run_coro` (no done-callbacks here – those are C14): delete every name of
-                      `unique_task2name[t]` from `unique_name2task`, delete the entry, `our_tasks.discard(t)`
+* `endBody t`       – the coroutine awaited by `run_coro` has ended (returned, raised, or a delivered cancel was thrown
+                      into it – also into the kill-me `sleep`): the `finally` begins.  NOTHING is released yet: the
+                      done-callbacks run first, as further segments of the same, still running task – they may suspend
+                      (so every other task's steps interleave with them) and may call `task.unique` themselves.
+* `exit t`          – the release block at the END of the `finally` of `run_coro` (after the done-callbacks, whose
+                      bookkeeping is C14's): delete every name of `unique_task2name[t]` – read at that moment – from
+                      `unique_name2task`, delete the entry, `our_tasks.discard(t)`
 * `decoNew t k km`  – new subsystem `TaskUniqueDecorator.handle_call`, first segment of the new task:
                       `if kill_me and unique_name_used(..): return False` else `task_unique(name)`
 
@@ -55,6 +61,7 @@ inductive Op (κ : Type) where
   | reap
   | exit (t : Task)
   | decoNew (t : Task) (k : κ) (killMe : Bool)
+  | endBody (t : Task)
 
 variable {κ : Type} [DecidableEq κ]
 
@@ -136,8 +143,12 @@ structure Cfg where
   tupleKeys : Bool
   legacyClaimsEmptyName : Bool
 
+/-- the code as it is now: every flag is READ OFF THE SOURCE on every run (`tools/extractors/C13.py` →
+`Gen/TaskTbl.lean`); the theorems about `current` only build while the extracted values are the repaired shapes -/
 def current : Cfg :=
-  { legacyClaimKillMe := true, reaperDetached := true, tupleKeys := true, legacyClaimsEmptyName := true }
+  { legacyClaimKillMe := PsModel.Gen.LEGACY_CLAIM_PASSES_KILL_ME, reaperDetached := PsModel.Gen.REAPER_DETACHED,
+    tupleKeys := PsModel.Gen.UNIQUE_KEYS_ARE_TUPLES, legacyClaimsEmptyName := PsModel.Gen.LEGACY_CLAIM_GUARD_IS_NOT_NONE }
+theorem current_eq : current = ⟨true, true, true, true⟩ := rfl
 def preFix : Cfg :=
   { legacyClaimKillMe := false, reaperDetached := false, tupleKeys := false, legacyClaimsEmptyName := false }
 
@@ -196,14 +207,125 @@ def decoLegacyStep (cfg : Cfg) (s : St κ) (t : Task) (k : κ) (km : Bool) : St 
 def decoLegacyNamed (cfg : Cfg) (s : St κ) (t : Task) (k : κ) (km nonEmpty : Bool) : St κ :=
   if cfg.legacyClaimsEmptyName || nonEmpty then decoLegacyStep cfg s t k km else s
 
+/-- the awaited coroutine ended, the `finally` of `run_coro` begins: the task is no longer blocked in the kill-me
+`sleep`; it keeps every registry entry and goes on running segments (its done-callbacks) until `exit` -/
+def endBodyStep (s : St κ) (t : Task) : St κ :=
+  if s.live t then { s with parked := upd s.parked t false } else s
+
 def step (s : St κ) : Op κ → St κ
   | .spawn t fg => spawnStep s t fg
   | .unique t k km => uniqueStep s t k km
   | .reap => reapStep s
   | .exit t => exitStep s t
   | .decoNew t k km => decoNewStep s t k km
+  | .endBody t => endBodyStep s t
 
 def run (ops : List (Op κ)) : St κ := ops.foldl step init
+
+/-! ### the same steps, DEFINED FROM THE SHAPE TABLES extracted from function.py
+
+`Shape` says how `task_unique` and the release block of `run_coro` are put together: which guards exist, in which order
+the blocks come, which maps a claim stores into, which registries the release block clears in which order.
+`Shape.extracted` is read off the source on every run (`Gen/TaskTbl.lean`); `Shape.proved` is the hand-written shape the
+theorems are proved for.  The driver replays observed runs with `stepSh Shape.extracted current`; the property theorems
+`C13_shape_tie` / `C13_shape_step` show that this is `step`.  A change of shape that the extractor still recognises
+therefore changes the model the real code is compared with AND breaks `C13_shape_tie`; one it does not recognise
+withholds the table. -/
+
+structure Shape where
+  killBeforeClaim : Bool            -- the block that hands somebody to the reaper precedes the claim block
+  killmeIfOther : Bool              -- kill_me arm guarded by `task != curr_task`
+  killmeParks : Bool                -- `reaper_cancel(curr_task)` is followed by `await asyncio.sleep(100000)`
+  killNotSelf : Bool                -- displacing arm: conjunct `task != curr_task`
+  killOnlyOurs : Bool               -- displacing arm: conjunct `task in cls.our_tasks`
+  claimOnlyOurs : Bool              -- claim block guarded by `curr_task in cls.our_tasks`
+  claimDiscardsOld : Bool           -- `unique_task2name[old].discard(key)`
+  claimWrites : List PsModel.Gen.Reg       -- the maps a claim stores into
+  releaseOrder : List PsModel.Gen.Reg      -- the registries the release block of `run_coro` clears, in order
+deriving DecidableEq, Repr
+
+def Shape.extracted : Shape :=
+  { killBeforeClaim := PsModel.Gen.UNIQUE_KILL_BEFORE_CLAIM, killmeIfOther := PsModel.Gen.UNIQUE_KILLME_IF_OTHER,
+    killmeParks := PsModel.Gen.UNIQUE_KILLME_PARKS, killNotSelf := PsModel.Gen.UNIQUE_KILL_NOT_SELF,
+    killOnlyOurs := PsModel.Gen.UNIQUE_KILL_ONLY_OURS, claimOnlyOurs := PsModel.Gen.UNIQUE_CLAIM_ONLY_OURS,
+    claimDiscardsOld := PsModel.Gen.UNIQUE_CLAIM_DISCARDS_OLD, claimWrites := PsModel.Gen.UNIQUE_CLAIM_WRITES,
+    releaseOrder := PsModel.Gen.RELEASE_ORDER }
+
+def Shape.proved : Shape :=
+  { killBeforeClaim := true, killmeIfOther := true, killmeParks := true, killNotSelf := true, killOnlyOurs := true,
+    claimOnlyOurs := true, claimDiscardsOld := true, claimWrites := [.unique_name2task, .unique_task2name],
+    releaseOrder := [.unique_name2task, .unique_task2name, .task2context, .task2cb, .our_tasks] }
+
+/-- shape facts that are not parameters of a step function: one FIFO reaper queue; the release block sits in a `finally`
+and contains no await (it is one segment); the legacy dispatcher checks before it creates the task; the new decorator
+checks, then claims without kill_me -/
+def shapeFacts : List Bool :=
+  [PsModel.Gen.REAPER_ONE_FIFO_QUEUE, PsModel.Gen.RELEASE_IN_FINALLY, PsModel.Gen.RELEASE_ATOMIC,
+   PsModel.Gen.LEGACY_CHECK_BEFORE_TASK, PsModel.Gen.NEW_DECO_CHECK_THEN_PLAIN_CLAIM]
+
+/-- the block `if key in unique_name2task: …`: who is handed to the reaper; `.2` = the caller goes on to the claim -/
+def killArmSh (sh : Shape) (s : St κ) (t : Task) (k : κ) (km : Bool) : St κ × Bool :=
+  match s.owner k with
+  | none => (s, true)
+  | some o =>
+    if km then
+      (if !sh.killmeIfOther || decide (o ≠ t) then
+        (if sh.killmeParks then (park s t, false)
+         else ({ enqueue s t with selfEnq := upd s.selfEnq t true }, true))
+       else (s, true))
+    else
+      (if (!sh.killNotSelf || decide (o ≠ t)) && (!sh.killOnlyOurs || s.ours o) then (enqueue s o, true)
+       else (s, true))
+
+def setOwnerSh (sh : Shape) (s : St κ) (t : Task) (k : κ) : St κ :=
+  { s with owner := if PsModel.Gen.Reg.unique_name2task ∈ sh.claimWrites then upd s.owner k (some t) else s.owner,
+           entry := if PsModel.Gen.Reg.unique_task2name ∈ sh.claimWrites then upd s.entry t true else s.entry,
+           names := if PsModel.Gen.Reg.unique_task2name ∈ sh.claimWrites
+                    then upd s.names t (if k ∈ s.names t then s.names t else k :: s.names t) else s.names,
+           claimed := upd s.claimed k (upd (s.claimed k) t true) }
+
+def claimSh (sh : Shape) (s : St κ) (t : Task) (k : κ) : St κ :=
+  if !sh.claimOnlyOurs || s.ours t then
+    match s.owner k with
+    | some o => setOwnerSh sh (if sh.claimDiscardsOld then discard s o k else s) t k
+    | none => setOwnerSh sh s t k
+  else s
+
+def uniqueStepSh (sh : Shape) (s : St κ) (t : Task) (k : κ) (km : Bool) : St κ :=
+  if !canStep s t then s else
+  if sh.killBeforeClaim then
+    (if (killArmSh sh s t k km).2 then claimSh sh (killArmSh sh s t k km).1 t k else (killArmSh sh s t k km).1)
+  else (killArmSh sh (claimSh sh s t k) t k km).1
+
+/-- one statement of the release block; `.2` = it raised (`del unique_name2task[name]` → KeyError) -/
+def releaseOne (s : St κ) (t : Task) : PsModel.Gen.Reg → St κ × Bool
+  | .unique_name2task =>
+    if s.entry t then
+      (if delErr s.owner (s.names t) then ({ s with owner := delStop s.owner (s.names t), keyErr := true }, true)
+       else ({ s with owner := delStop s.owner (s.names t) }, false))
+    else (s, false)
+  | .unique_task2name =>
+    (if s.entry t then { s with names := upd s.names t [], entry := upd s.entry t false } else s, false)
+  | .our_tasks => ({ s with ours := upd s.ours t false }, false)
+  | .task2context => (s, false)       -- C14's registries
+  | .task2cb => (s, false)
+
+def releaseAll : List PsModel.Gen.Reg → St κ → Task → St κ × Bool
+  | [], s, _ => (s, false)
+  | r :: rs, s, t => if (releaseOne s t r).2 then ((releaseOne s t r).1, true) else releaseAll rs (releaseOne s t r).1 t
+
+def exitStepSh (sh : Shape) (s : St κ) (t : Task) : St κ :=
+  if !s.live t then s else
+  if (releaseAll sh.releaseOrder s t).2 then { (releaseAll sh.releaseOrder s t).1 with live := upd s.live t false }
+  else { (releaseAll sh.releaseOrder s t).1 with live := upd s.live t false, parked := upd s.parked t false }
+
+def stepSh (sh : Shape) (cfg : Cfg) (s : St κ) : Op κ → St κ
+  | .spawn t fg => spawnStep s t fg
+  | .unique t k km => uniqueStepSh sh s t k km
+  | .reap => reapStepCfg (!cfg.reaperDetached) s
+  | .exit t => exitStepSh sh s t
+  | .decoNew t k km => if decoRuns s k km then uniqueStepSh sh s t k false else s
+  | .endBody t => endBodyStep s t
 
 /-- a cancel is pending (queued) or delivered -/
 def Pending (s : St κ) (t : Task) : Prop := t ∈ s.reaperQ ∨ s.cancelReq t = true
